@@ -189,6 +189,10 @@ func runC12(w *fw.Worker) {
 				lr.Leaf().Tags[pk.tagKey] = fmt.Sprintf("custom-%s-%d", gen.Kebab(lr.Leaf().Words), k)
 			}
 		}
+		if !gen.FlattenedNamesDistinct(leaves) {
+			w.Count("skipped_ambiguous_flag_names", 1)
+			return
+		}
 		names := map[string]*gen.LeafRef{}
 		for _, lr := range leaves {
 			n := flagName(pk.tagKey, custom, lr)
